@@ -286,6 +286,29 @@ fn c17(out: &mut Out, decl: &Value, seed: u64) {
             }
         }
     }
+    // (1b) the same questions asked in ANOTHER ORDER: one word after the other, each put to every mask kind in turn (and a
+    // value-enum operand in between): the answer for (kind, word) must not depend on what was asked before
+    let mask_kinds: Vec<(String, u32)> = live["kinds"].as_object().unwrap().iter()
+        .filter(|(k, kv)| OPERAND_VARIANTS.contains(&k.as_str()) && kv["bits"].is_array()).map(|(k, kv)| (k.clone(), unw(&kv["all"]))).collect();
+    let mut words: Vec<u32> = (0..=17u32).collect();
+    words.extend((5..20).map(|b| 1u32 << b));
+    for round in 0..2 {
+        for &w in &words {
+            let order: Vec<&(String, u32)> = if round == 0 { mask_kinds.iter().collect() } else { mask_kinds.iter().rev().collect() };
+            for (kind, all) in order {
+                if w & all != w { continue; }
+                let op = match operand_make(kind, &[w], None) { Some(o) => o, None => continue };
+                let between = dr::Operand::Decoration(spirv::Decoration::SpecId);
+                let r = catch(|| { let x = (op.additional_operands(), op.required_capabilities(), op.required_extensions()); let _ = between.additional_operands(); x });
+                match r {
+                    Ok((p, caps, exts)) => out.ev(json!({"ev": "reflect", "kind": kind, "key": dump::key_of(w), "value": jw(w), "cat": "BitEnum",
+                        "params": p.iter().map(|o| json!({"k": format!("{:?}", o.kind), "q": format!("{:?}", o.quantifier)})).collect::<Vec<_>>(),
+                        "caps": caps.iter().map(|c| format!("{:?}", c)).collect::<Vec<_>>(), "exts": exts})),
+                    Err(p) => out.ev(json!({"ev": "reflect", "kind": kind, "key": dump::key_of(w), "value": jw(w), "cat": "BitEnum", "params": ["panic"], "caps": [], "exts": [], "panic": jpanic(&p)})),
+                }
+            }
+        }
+    }
     // (2) id_ref_any / id_ref_any_mut / From / unwrap for every operand variant
     let id_payloads: [u32; 5] = [0x00ab_cdef, 0, 1, u32::MAX, 0x8000_0000];
     for (variant, round) in OPERAND_VARIANTS.iter().flat_map(|v| (0..5usize).map(move |r| (v, r))) {
